@@ -8,7 +8,8 @@ Helper lemmas for C20 (property theorems are in `Qx/Props/C20.lean`).
 4. `QString::operator<` (`lt16`) is a strict total order (UTF-16 encoding is injective on scalar values);
 5. the QMap model (`buildMap`);
 6. S as a separator-terminated token list; injectivity;
-7. UTF-8 octet order = code point order; UTF-16 order = code point order on the BMP.
+7. UTF-8 octet order = code point order; UTF-16 order = code point order on the BMP;
+8. where the C++ and the XEP agree (`OrdersAgree`, `Plain` values).
 -/
 namespace Qx.C20
 
@@ -55,7 +56,7 @@ theorem lexBy_total {α : Type} {lt : α → α → Bool} (h : StrictTotal lt) :
     | true => simp [hab] at h1
     | false =>
       cases hba : lt b a with
-      | true => simp [hab, hba] at h2
+      | true => simp [hba] at h2
       | false =>
         simp only [hab, hba, Bool.false_eq_true, if_false] at h1 h2
         rw [h.total a b hab hba, lexBy_total h as bs h1 h2]
@@ -1193,5 +1194,138 @@ theorem utf16_of_bmp (s : Str) (h : Bmp s) : utf16 s = cps s := by
 /-- **`QString::operator<` is code point order on BMP-only strings**, hence equal to the octet order there -/
 theorem lt16_eq_lt8_of_bmp (a b : Str) (ha : Bmp a) (hb : Bmp b) : lt16 a b = lt8 a b := by
   rw [lt8_eq_cp, lt16, utf16_of_bmp a ha, utf16_of_bmp b hb]
+
+
+/-! ## 8. where the C++ and the XEP agree -/
+
+/-- the two collations agree on every pair of components -/
+def OrdersAgree (i : Info) : Prop := ∀ s ∈ i.components, ∀ t ∈ i.components, lt16 s t = lt8 s t
+
+/-- a field value that the C++ hashes exactly as it is written to the wire: a non-empty string or a
+non-empty string list (not a boolean, not a value-less field) -/
+def Value.Plain : Value → Prop
+  | .text s => s ≠ []
+  | .list l => l ≠ []
+  | .bool _ => False
+
+def PlainForm : Option (List Field) → Prop
+  | none => True
+  | some fs => ∀ f ∈ fs, f.value.Plain
+
+theorem mem_components_id {i : Info} {d : Identity} (hd : d ∈ i.ids) :
+    d.category ∈ i.components ∧ d.type ∈ i.components ∧ d.lang ∈ i.components ∧ d.name ∈ i.components := by
+  have h : ∀ s ∈ idKey d, s ∈ i.components := fun s hs => by
+    simp only [Info.components, mem_append, mem_flatMap]; exact Or.inl ⟨d, hd, hs⟩
+  simp only [idKey, mem_cons, not_mem_nil, or_false, forall_eq_or_imp, forall_eq] at h
+  exact h
+
+theorem mem_components_feat {i : Info} {f : Str} (hf : f ∈ i.feats) : f ∈ i.components := by
+  simp only [Info.components, mem_append]; exact Or.inr (Or.inl hf)
+
+theorem mem_components_field {i : Info} {fs : List Field} (hform : i.form = some fs) {f : Field} (hf : f ∈ fs) :
+    f.key ∈ i.components ∧ ∀ s ∈ f.value.strings, s ∈ i.components := by
+  have h : ∀ s ∈ f.key :: f.value.strings, s ∈ i.components := fun s hs => by
+    simp only [Info.components, hform, mem_append, mem_flatMap]
+    exact Or.inr (Or.inr ⟨f, hf, hs⟩)
+  exact ⟨h _ mem_cons_self, fun s hs => h s (mem_cons_of_mem _ hs)⟩
+
+theorem sortedIds_agree {i : Info} (h : OrdersAgree i) :
+    isort (identityLessThan lt16) i.ids = isort (identityLessThan lt8) i.ids := by
+  apply isort_congr
+  intro d hd e he
+  have md := mem_components_id hd
+  have me := mem_components_id he
+  simp only [identityLessThan,
+    h _ md.1 _ me.1, h _ me.1 _ md.1, h _ md.2.1 _ me.2.1, h _ me.2.1 _ md.2.1,
+    h _ md.2.2.1 _ me.2.2.1, h _ me.2.2.1 _ md.2.2.1, h _ md.2.2.2 _ me.2.2.2, h _ me.2.2.2 _ md.2.2.2]
+
+theorem sortedFeats_agree {i : Info} (h : OrdersAgree i) : isort lt16 i.feats = isort lt8 i.feats :=
+  isort_congr _ (fun a ha b hb => h a (mem_components_feat ha) b (mem_components_feat hb))
+
+theorem wire_text_ne_nil {s : Str} (h : s ≠ []) : (Value.text s).wire = [s] := by
+  cases s with
+  | nil => exact absurd rfl h
+  | cons _ _ => rfl
+
+/-- a plain field is hashed as the XEP says, provided the collations agree on its values -/
+theorem fieldStr_agree {f : Field} (hp : f.value.Plain)
+    (h : ∀ s ∈ f.value.strings, ∀ t ∈ f.value.strings, lt16 s t = lt8 s t) :
+    fieldStrCode f = fieldStrSpec f := by
+  simp only [fieldStrCode, fieldStrSpec]
+  congr 2
+  cases hv : f.value with
+  | bool b => rw [hv] at hp; exact absurd hp (by simp [Value.Plain])
+  | text s =>
+    rw [hv] at hp
+    simp only [Value.Plain] at hp
+    simp [Value.codeVals, wire_text_ne_nil hp, join, isort, insertBy]
+  | list l =>
+    rw [hv] at hp h
+    simp only [Value.Plain] at hp
+    simp only [Value.strings] at h
+    simp only [Value.codeVals, Value.wire]
+    rw [join_sep _ (fun e => hp ((isort_eq_nil _ _).mp e)), isort_congr l h]
+    rfl
+
+theorem toStr_eq_wire {v : Value} (hp : v.Plain) {w : Str} (hw : v.wire = [w]) : v.toStr = v.wire.flatten := by
+  cases v with
+  | bool b => exact absurd hp (by simp [Value.Plain])
+  | text s => simp only [Value.Plain] at hp; simp [Value.toStr, wire_text_ne_nil hp]
+  | list l => simp only [Value.wire] at hw; subst hw; simp [Value.toStr, Value.wire]
+
+/-- the form part: QMap with last-wins/`toString`/`join` against the XEP's steps 6–7 -/
+theorem formStr_agree {i : Info} (h : OrdersAgree i) (hx : XepForm i.form) (hp : PlainForm i.form) :
+    formStrCode i.form = formStrSpec i.form := by
+  cases hform : i.form with
+  | none => rfl
+  | some fs =>
+    rw [hform] at hx hp
+    simp only [XepForm] at hx
+    simp only [PlainForm] at hp
+    simp only [formStrCode, formStrSpec]
+    rw [buildMap_find fs hx.1, buildMap_filter fs hx.1]
+    cases hft : fs.find? (fun f => decide (f.key = formTypeKey)) with
+    | none => rfl
+    | some ft =>
+      have hm : ft ∈ fs := mem_of_find?_eq_some hft
+      have hk : ft.key = formTypeKey := by simpa using find?_some hft
+      obtain ⟨w, hw⟩ := hx.2 ft hm hk
+      simp only
+      rw [toStr_eq_wire (hp ft hm) hw]
+      congr 2
+      have e : isort keyLt (fs.filter (fun f => decide (f.key ≠ formTypeKey)))
+          = isort (fun a b : Field => lt8 a.key b.key) (fs.filter (fun f => decide (f.key ≠ formTypeKey))) := by
+        apply isort_congr
+        intro a ha b hb
+        exact h _ (mem_components_field hform (mem_filter.mp ha).1).1 _ (mem_components_field hform (mem_filter.mp hb).1).1
+      rw [e]
+      apply flatMap_congr'
+      intro f hf
+      have hf' : f ∈ fs := (mem_filter.mp ((mem_isort _ _ f).mp hf)).1
+      have mc := mem_components_field hform hf'
+      exact fieldStr_agree (hp f hf') (fun s hs t ht => h s (mc.2 s hs) t (mc.2 t ht))
+
+theorem ordersAgree_of_bmp {i : Info} (h : ∀ s ∈ i.components, Bmp s) : OrdersAgree i :=
+  fun s hs t ht => lt16_eq_lt8_of_bmp s t (h s hs) (h t ht)
+
+theorem isPrefixOf_self_append : ∀ (p r : Str), p.isPrefixOf (p ++ r) = true
+  | [], _ => by simp [isPrefixOf]
+  | c :: p, r => by simp [isPrefixOf_self_append p r]
+
+/-! ### the predicates used in the statements are decidable (for the non-vacuity examples) -/
+
+instance (c : Char) (i : Info) : Decidable (NoChar c i) := by unfold NoChar; infer_instance
+instance (i : Info) : Decidable (NoSlash i) := by unfold NoSlash; infer_instance
+instance (s : Str) : Decidable (Bmp s) := by unfold Bmp; infer_instance
+instance : (f : Option (List Field)) → Decidable (DistinctKeys f)
+  | none => isTrue trivial
+  | some fs => inferInstanceAs (Decidable (fs.map Field.key).Nodup)
+instance : (v : Value) → Decidable v.Plain
+  | .text s => inferInstanceAs (Decidable (s ≠ []))
+  | .list l => inferInstanceAs (Decidable (l ≠ []))
+  | .bool _ => isFalse (fun h => h)
+instance : (f : Option (List Field)) → Decidable (PlainForm f)
+  | none => isTrue trivial
+  | some fs => inferInstanceAs (Decidable (∀ f ∈ fs, f.value.Plain))
 
 end Qx.C20
